@@ -115,3 +115,48 @@ func VerifC06_ChunkStream() {
 		vAssert(err == nil, "ChunkStream failed although no store operation failed")
 	}
 }
+
+// VerifC06_LocalStores: Copy / ChopFile into real local stores (model file system) for every
+// combination of source and target compression: after success every chunk can be read back,
+// valid, from the target.
+func VerifC06_LocalStores() {
+	vSchedFixed(true)
+	vPreempt(0)
+	srcUnc := vChoose("source-uncompressed", 2) == 1
+	dstUnc := vChoose("target-uncompressed", 2) == 1
+	root := vTempDir()
+	os.Mkdir(root+"/src", 0755)
+	os.Mkdir(root+"/dst", 0755)
+	src, _ := NewLocalStore(root+"/src", StoreOptions{Uncompressed: srcUnc})
+	dst, _ := NewLocalStore(root+"/dst", StoreOptions{Uncompressed: dstUnc})
+	blob := []byte{0x61, 0x62, 0x63}
+	os.WriteFile(root+"/blob", blob, 0644)
+	idx := Index{Index: FormatIndex{FeatureFlags: CaFormatSHA512256, ChunkSizeMin: 1, ChunkSizeAvg: 1, ChunkSizeMax: 2}}
+	var ids []ChunkID
+	for _, r := range [][2]int{{0, 2}, {2, 3}} {
+		c := NewChunk(blob[r[0]:r[1]])
+		idx.Chunks = append(idx.Chunks, IndexChunk{ID: c.ID(), Start: uint64(r[0]), Size: uint64(r[1] - r[0])})
+		ids = append(ids, c.ID())
+	}
+	var err error
+	if vChoose("operation", 2) == 0 {
+		err = ChopFile(context.Background(), root+"/blob", idx.Chunks, src, 1, NullProgressBar{})
+		vAssert(err == nil, "ChopFile into a local store failed")
+		err = Copy(context.Background(), ids, src, dst, 1, NullProgressBar{})
+	} else {
+		err = ChopFile(context.Background(), root+"/blob", idx.Chunks, dst, 1, NullProgressBar{})
+	}
+	vCover("returned")
+	vAssert(err == nil, "bulk write into a healthy local store failed")
+	if err == nil {
+		for k, c := range idx.Chunks {
+			got, gerr := dst.GetChunk(c.ID)
+			vAssert(gerr == nil, "bulk write reported success but a chunk cannot be read back, valid, from the target store")
+			if gerr == nil {
+				b, _ := got.Data()
+				vAssert(string(b) == string(blob[c.Start:c.Start+c.Size]), "chunk read back from the target differs")
+			}
+			_ = k
+		}
+	}
+}
